@@ -24,6 +24,8 @@ fn spaces(tier: Tier) -> Vec<Space> {
             Space { alpha: "SELFX", depth: 3 },
             Space { alpha: "CASC", depth: 2 },
             Space { alpha: "CASC", depth: 3 },
+            Space { alpha: "TERN", depth: 2 },
+            Space { alpha: "TERN", depth: 3 },
             Space { alpha: "QSYM", depth: 3 },
             Space { alpha: "QSYM", depth: 4 },
             Space { alpha: "CROSS", depth: 3 },
@@ -48,6 +50,8 @@ fn spaces(tier: Tier) -> Vec<Space> {
             Space { alpha: "SELFX", depth: 3 },
             Space { alpha: "CASC", depth: 2 },
             Space { alpha: "CASC", depth: 3 },
+            Space { alpha: "TERN", depth: 2 },
+            Space { alpha: "TERN", depth: 3 },
             Space { alpha: "QSYM", depth: 3 },
             Space { alpha: "QSYM", depth: 4 },
             Space { alpha: "CROSS", depth: 3 },
